@@ -275,6 +275,11 @@ func (t *Tree) RemoveTips(revert bool, names ...string) error {
 			}
 		}
 	}
+	// The tip set has changed: the tip name index must be rebuilt
+	// before the bitsets (their size depends on it)
+	if err := t.UpdateTipIndex(); err != nil {
+		return err
+	}
 	t.ReinitInternalIndexes()
 	return nil
 }
